@@ -174,37 +174,114 @@ def run(run: Run, pkg: Package) -> None:
 
     for lv in range(1, 13):
         leaf = leaf_for(lv)
-        sel = [r for r in it.returns if guard_eval(r.guards, lambda c: eval_bool(c, leaf)) is True]
-        maybe = [r for r in it.returns if guard_eval(r.guards, lambda c: eval_bool(c, leaf)) is None]
         key = f"dispatch l={lv}"
-        if maybe:
-            run.ob("R-DISPATCH", fq, key, None, f"degree {lv} reaches one return", "guard not decidable on l", loc=fi.loc())
+        if lv <= 10:
+            want = pkg.func(f"{MOD}.SphHarm{lv}").qual
+            want_args = [("sym", params[1]), ("sym", params[2])]
+        else:
+            want = pkg.func(f"{MOD}.SphHarm_above").qual
+            want_args = [lsym, ("sym", params[1]), ("sym", params[2])]
+
+        def is_table_call(val):
+            if not (val[0] == "call" and val[1] == want):
+                return False
+            kwd = dict(val[3])
+            tp = pkg.func(want).params
+            full = list(val[2]) + [kwd.get(p) for p in tp[len(val[2]):]]
+            return full == want_args
+        # returns not refuted by the tests on l (tests on the angles are left open)
+        cands = []
+        for r in it.returns:
+            lg = [(c, pol) for c, pol in r.guards if eval_bool(c, leaf) is not None]
+            og = [(c, pol) for c, pol in r.guards if eval_bool(c, leaf) is None]
+            if any(eval_bool(c, leaf) != pol for c, pol in lg):
+                continue
+            cands.append((r, og))
+        plain = [r for r, og in cands if not og]
+        special = [(r, og) for r, og in cands if og]
+        # special-case returns guarded by the angles: compared with the table at concrete directions satisfying their guard
+        bad_special = None
+        und_special = None
+        for r, og in special:
+            if is_table_call(r.data["value"]):
+                continue
+            res = shortcut_witness(it, r, og, lv, params)
+            if res is None or res is True:
+                und_special = r         # agreement at the sampled directions is not a proof: left undecided, never passed
+            else:
+                bad_special = (r, res)
+        if bad_special is not None:
+            r, wit = bad_special
+            run.ob("R-DISPATCH", fq, key, False, f"degree {lv} returns the table of degree {lv} for every direction", f"special-case return {show(r.data['value'])[:60]} under {show(r.guards[-1][0])[:60]}",
+                   witness=wit, loc=loc_of(it, r))
             continue
-        if not sel:
+        if und_special is not None:
+            run.ob("R-DISPATCH", fq, key, None, f"degree {lv} reaches one return", f"special-case return under a guard on the angles: no differing direction found among 15 sampled ones (not a proof) / not evaluable: {show(und_special.guards[-1][0])[:80]}", loc=fi.loc())
+            continue
+        finals = plain + [r for r, og in special if is_table_call(r.data["value"])]
+        if not finals:
             run.ob("R-DISPATCH", fq, key, False, f"degree {lv} is dispatched to its table",
                    "no return is selected: the call falls through and yields None",
                    witness=f"sph_harm_l({lv}, theta, phi) is None", loc=fi.loc())
             continue
-        val = sel[0].data["value"]
+        val = finals[0].data["value"]
+        ok = all(is_table_call(r.data["value"]) for r in finals)
         if lv <= 10:
-            want = pkg.func(f"{MOD}.SphHarm{lv}").qual
-            ok = val[0] == "call" and val[1] == want and val[2] == (("sym", params[1]), ("sym", params[2])) and not val[3]
-            if val[0] == "call" and val[1] == want and not ok:
-                kwd = dict(val[3])
-                tp = pkg.func(want).params
-                full = list(val[2]) + [kwd.get(p) for p in tp[len(val[2]):]]
-                ok = full == [("sym", params[1]), ("sym", params[2])]
             run.ob("R-DISPATCH", fq, key, ok, f"degree {lv} returns SphHarm{lv}(theta, phi)", f"returns {show(val)[:100]}",
-                   witness=None if ok else f"sph_harm_l({lv}, theta, phi) evaluates {show(val)[:80]}", loc=loc_of(it, sel[0]))
+                   witness=None if ok else f"sph_harm_l({lv}, theta, phi) evaluates {show(val)[:80]}", loc=loc_of(it, finals[0]))
         else:
-            want = pkg.func(f"{MOD}.SphHarm_above").qual
-            ok = val[0] == "call" and val[1] == want and val[2] == (lsym, ("sym", params[1]), ("sym", params[2])) and not val[3]
             run.ob("R-DISPATCH", fq, key, ok, f"degree {lv} > 10 delegates to SphHarm_above(l, theta, phi)",
-                   f"returns {show(val)[:100]}", witness=None if ok else f"l={lv}", loc=loc_of(it, sel[0]))
+                   f"returns {show(val)[:100]}", witness=None if ok else f"l={lv}", loc=loc_of(it, finals[0]))
     run.minimum("R-DISPATCH", 12)
 
     # ---------------------------------------------------------------- delegated call convention
     check_above(run, pkg)
+
+
+def shortcut_witness(it, r, og, lv, params):
+    """A return of the dispatcher that is guarded by the angles and is not the table call: evaluate guard and value (an array
+    built by np.zeros + constant stores, or a direct expression) at concrete directions and compare with Y_lm of the definition.
+    Returns a witness string (differs), True (agrees at every direction that satisfies the guard), None (not evaluable / guard
+    never satisfied)."""
+    import math
+    import numpy as np
+    from ..concrete import ev as cev
+    thetas = [0.0, math.pi, math.pi / 2, 1.1, 2.3]
+    phis = [0.0, 0.4, 2.9]
+    hit = False
+    for th in thetas:
+        for ph in phis:
+            env = {("sym", params[0]): lv, ("sym", params[1]): th, ("sym", params[2]): ph}
+            try:
+                if not all(bool(cev(c, env)) == pol for c, pol in og):
+                    continue
+                val = r.data["value"]
+                got = cev(val, env)
+                if isinstance(got, np.ndarray):
+                    got = got.astype(complex)
+                    for e in it.events:
+                        if e.kind == "store" and e.data["target"][0] == "sub" and e.data["target"][1] == val and not e.loops and e.seq < r.seq:
+                            if all(bool(cev(c, env)) == pol for c, pol in e.guards):
+                                v = cev(e.data["value"], env)
+                                i = cev(e.data["target"][2], env)
+                                if e.data["op"] is None:
+                                    got[i] = v
+                                elif e.data["op"] == "+":
+                                    got[i] += v
+                                else:
+                                    return None
+                got = np.asarray(got, dtype=complex).ravel()
+            except Exception:  # noqa
+                return None
+            hit = True
+            if lv > 10:
+                return None
+            want = np.array([complex(sp.N(ylm_reference(lv, m).subs({c_: sp.cos(th), s_: sp.sin(th), z_: sp.exp(sp.I * ph)}), 20)) for m in range(-lv, lv + 1)])
+            if got.shape != want.shape or not np.allclose(got, want, atol=1e-9):
+                k = int(np.argmax(np.abs(got - want))) if got.shape == want.shape else 0
+                return (f"sph_harm_l({lv}, theta={th:.6g}, phi={ph:.3g}) takes the special-case return: m={k - lv} is {got[k] if got.shape == want.shape else got.shape}, "
+                        f"Y_{lv},{k - lv} = {want[k]:.8g}")
+    return True if hit else None
 
 
 # signature table: role of each positional parameter
